@@ -15,3 +15,18 @@ package validate
 //@   noinline typeOfEntityUID
 //@   ensures (val is types.Boolean || val is types.Long || val is types.String) ==> (err == nil && t != nil)
 //@   ensures !(val is types.Boolean || val is types.Long || val is types.String || val is types.EntityUID) ==> err != nil
+
+// A comparison is accepted only if both operands have one and the same
+// comparable type: the evaluator compares Long with Long, datetime with
+// datetime, duration with duration and fails with a type error otherwise
+// (C15: an accepted policy cannot fail with a type error).
+//@ func (Validator) typeOfExpr
+//@   pure
+//@   trusted
+//@ func compareCedarType
+//@   pure
+//@   trusted
+//@ func (Validator) typeOfComparison
+//@   props C15
+//@   results t, c, err
+//@   ensures same_type: (err == nil && v.typeOfExpr#0(env, left, caps) != nil && v.typeOfExpr#0(env, right, caps) != nil) ==> compareCedarType#0(v.typeOfExpr#0(env, left, caps), v.typeOfExpr#0(env, right, caps)) == 0
